@@ -8,6 +8,8 @@ import LLTD.Model.World
 import Driver.Parse
 import Driver.Block
 import Driver.Check
+import LLTD.Model.Race
+import LLTD.Model.LinuxPort
 
 open LLTD
 
@@ -427,6 +429,24 @@ def checkMain (prop : String) (path : String) : IO Unit := do
 def main (args : List String) : IO Unit := do
   if let ["check", prop, path] := args then
     checkMain prop path
+    return
+  if let ["linuxrec", path] := args then
+    -- model of the Linux port getters on records: one record per line
+    let txt ← IO.FS.readFile path
+    for line in txt.splitOn "\n" do
+      match Driver.tokens line with
+      | [m, a, b, c, d, e] =>
+        match Driver.parseFixed m 6, a.toNat?, b.toNat?, c.toNat?, d.toNat?, e.toNat? with
+        | some mac, some mtu, some ift, some spd, some med, some fl =>
+          let s := LLTD.LinuxPort.supplied { mac := mac, mtu := mtu, ifType := ift, linkSpeed := spd, mediumType := med, flags := fl }
+          IO.println s!"rec mac={Driver.toHex s.mac} mtu={s.mtu} iftype={s.ifType} speed={s.speed100} flags={s.flags} rc=0000"
+        | _, _, _, _, _, _ => IO.println "bad-rec"
+      | _ => pure ()
+    return
+  if let ["race", sched] := args then
+    -- model prediction for one schedule of the two-thread insertion: letters A/B = threads 0/1
+    let s := sched.toList.map (fun c => if c == 'A' then 0 else 1)
+    IO.println s!"lost={LLTD.Race.lost s}"
     return
   let stdin ← IO.getStdin
   let stdout ← IO.getStdout
